@@ -162,6 +162,26 @@ fn comment_file(fe: &str, id: &str, r: &mut Rng) -> Built {
     if id == "shellscript" && r.chance(1, 3) {
         b.non("#!/bin/sh teh", "ignored_comment");
         b.newline();
+        if r.chance(1, 4) {
+            // the comment block merged with the shebang carries an ignore marker: the shebang hides its own line,
+            // the marker the rest of the block (up to the next code line)
+            let a = b.n;
+            for i in 0..r.range(1, 2) {
+                b.raw("# ");
+                b.raw(r.s(A));
+                b.raw(" ");
+                if i == 0 {
+                    b.raw(r.s(MARKERS));
+                    b.raw(" ");
+                }
+                b.raw(r.s(B));
+                b.newline();
+            }
+            let e = b.n;
+            b.forbidden.push((a, e, "ignored_comment".into()));
+            code_stmt(&mut b, &l, r);
+            b.newline();
+        }
     }
     for part in l.header.split_inclusive('\n') {
         b.non(part.trim_end_matches('\n'), "code");
@@ -459,6 +479,20 @@ fn markdown_block(b: &mut Bld, r: &mut Rng, git: bool, ilt: bool) {
 fn markdown_file(fe: &str, r: &mut Rng) -> Built {
     let mut b = Bld::new(r.chance(1, 4));
     let git = fe == "gitcommit";
+    if git && r.chance(1, 12) {
+        // an untouched commit template: git comment lines only, the first one opens the file
+        for _ in 0..r.range(1, 3) {
+            let a = b.n;
+            b.raw("# ");
+            b.raw(r.s(A));
+            b.raw(" ");
+            b.raw(r.s(B));
+            let e = b.n;
+            b.forbidden.push((a, e, "git_comment".into()));
+            b.newline();
+        }
+        return b.finish(fe);
+    }
     if r.chance(1, 3) {
         // multi-byte material before the first prose
         b.raw("`");
